@@ -57,7 +57,18 @@ def I6():
     )
 
 
-STRUCTS = dict(I1=I1, I2=I2, I3=I3, I4=I4, I6=I6)
+def I7():
+    """a timed compartment whose duration (0.6 y) is not a whole number of steps (dt = 0.25 y: 3 rows), initialised from the databook"""
+    return dict(
+        name="I7",
+        comps=[dict(name="a", default=50), dict(name="v", default=40), dict(name="w", setup=False)],
+        characs=[dict(name="alive", components="a,v,w", default=100)],
+        pars=_rate() + [dict(name="dur", format="duration", default=0.6, timed="y")],
+        transitions={("a", "v"): "r", ("v", "w"): "dur", ("w", "a"): "r"},
+    )
+
+
+STRUCTS = dict(I1=I1, I2=I2, I3=I3, I4=I4, I6=I6, I7=I7)
 _P = {}
 
 
